@@ -1,16 +1,53 @@
 #!/usr/bin/env python3
-"""Adds the keys of a VSGMC_DUMP_KEYS file to known_findings.json (run by hand after triage; never at check time)."""
+"""tools/kf_add.py [--session <text>] <VSGMC_DUMP_KEYS file> ...
+Adds the keys of dump files to known_findings.json (run by hand after triage; never at check time).  The triage text is chosen
+by the effect kind of the key; anything without a matching group is refused (it has to be looked at and given a group here)."""
 import json, sys
+GROUPS = [
+    (("comment_lost", "comment_duplicated", "comment_absorbed_text", "comment_text_changed", "comments_reordered", "code_left_on_the_line_of_a_comment",
+      "code_token_left_behind_a_comment_on_its_line", "written_comment", "written_code_tokens_differ_from_model", "own_line_comment_removed"),
+     "genuine defect of the pinned tree, group 'comments and line joining' (DESIGN 14.2): a rule that joins, moves, removes or re-creates tokens does not carry a comment / preprocessor line "
+     "that stands between them (or leaves code behind it, or edits inside a delimited comment); needs the rule's fix to be re-thought, not small/safe to repair here"),
+    (("code_tokens_changed_beyond_redundant_elements", "non_structural_rule_changed_code_tokens", "final_model_differs", "written_text_tokenises_differently", "rule_changed_non_whitespace", "case_rule_changed"),
+     "genuine defect of the pinned tree, group 'rules that change more than redundant elements / more than their class allows' (DESIGN 14.2); not small/safe to repair here"),
+    (("output_rejected", "tokens_differ", "indent_differs", "roles_differ", "report_after_fix_differs_from_fresh_check"),
+     "genuine defect of the pinned tree, group 'written text read back differently' (DESIGN 14.2): consequence of the comment / structure defects above or of stale indentation / alignment state after fixing; not small/safe to repair here"),
+    (("transient", "cycle:", "long_tail", "second_fix_changes_text"),
+     "genuine defect of the pinned tree, group 'no convergence' (DESIGN 14.2): a second application still changes the text; needs the alignment / structure rules involved to be re-thought"),
+    (("changed_unreported_line", "reported_line_not_changed", "line_count_changed"),
+     "genuine defect of the pinned tree, group 'reported line is not the changed line' (DESIGN 14.2): the violation carries the line of the token left of the gap while the fix edits the line of the token right of it"),
+    (("role_changed", "relayout_rejected", "token_count_differs", "code_tokens_differ"),
+     "genuine defect of the pinned tree, group 'classification depends on layout' (DESIGN 14.2)"),
+    (("exception:", "hang@", "escaped:", "traceback:"),
+     "genuine defect of the pinned tree, group 'crashes and hangs' (DESIGN 14.2): an accepted file (or a documented configuration) makes a rule or the classifier raise / not terminate; each call site needs its own guard and a decision what the rule should report there"),
+    (("unclassified_token_left",), "genuine defect of the pinned tree: form feed / no-break space accepted as separator but left unclassified (DESIGN 14.2)"),
+]
+args = sys.argv[1:]
+session = ""
+if args and args[0] == "--session":
+    session = args[1]
+    args = args[2:]
 kf = json.load(open("/verif/known_findings.json"))
 have = {(e["property"], e["key"]) for e in kf["findings"]}
 n = 0
-for f in sys.argv[1:]:
+refused = []
+for f in args:
     for x in json.load(open(f)):
         if (x["property"], x["key"]) in have:
             continue
-        kf["findings"].append({"property": x["property"], "key": x["key"], "witness": x["witness"], "what_fails": json.dumps(x["detail"], default=str)[:400], "triage": "TODO"})
+        tri = None
+        for pats, text in GROUPS:
+            if any(p in x["key"] for p in pats):
+                tri = text
+                break
+        if tri is None:
+            refused.append((x["property"], x["key"]))
+            continue
+        kf["findings"].append({"property": x["property"], "key": x["key"], "witness": x["witness"], "what_fails": json.dumps(x["detail"], default=str)[:400], "triage": tri + (" [" + session + "]" if session else "")})
         have.add((x["property"], x["key"]))
         n += 1
 kf["findings"].sort(key=lambda e: (e["property"], e["key"]))
 json.dump(kf, open("/verif/known_findings.json", "w"), indent=1)
 print("added", n, "total", len(kf["findings"]))
+for r in refused:
+    print("REFUSED (no triage group):", r)
